@@ -38,6 +38,7 @@ def check(run, prog, tier):
     rule_A(run, prog, sites)
     rule_B(run, prog, sites)
     rule_C(run, prog)
+    rule_C2(run, prog)
     rule_D(run, prog, sites)
     rule_E(run, prog, sites)
 
@@ -267,6 +268,77 @@ def rule_C(run, prog):
                                    "into a basis-managed object outside that context: eigenbasis populations would be "
                                    "labelled as populations of the current basis" % (src, src), loc=f.loc(c),
                            sample={"function": f.short, "wrap": norm(c), "source_operator": src})
+
+
+def rule_C2(run, prog):
+    """Defining basis of the thermal excited states.  The populations are Boltzmann weights of the
+    diagonal elements of a Hamiltonian matrix handed to _thermal_population.  Read through the
+    basis-managed .data outside any basis context, that matrix is in whatever basis the *caller* has
+    active: the weak-coupling form fixes its basis by reading inside eigenbasis_of(Ham); a form that
+    reads it unprotected returns a different physical state inside a basis-change context."""
+    from ..loader import parents_map
+    rid = "C14-C"
+    f = prog.func(AB + "_get_DensityMatrix")
+    pm = parents_map(f.node)
+    calls = [c for c in ast.walk(f.node) if isinstance(c, ast.Call) and call_name(c) == "_thermal_population"]
+    if len(calls) < 3:
+        raise AnalysisError("_get_DensityMatrix: %d calls of _thermal_population (3 confirmed)" % len(calls))
+
+    def ancestors(n):
+        out = []
+        while n in pm:
+            n = pm[n]
+            out.append(n)
+        return out
+
+    def in_ctx(n):
+        return any(isinstance(a, ast.With) and any(isinstance(i.context_expr, ast.Call) and
+                                                   call_name(i.context_expr) == "eigenbasis_of" for i in a.items)
+                   for a in ancestors(n))
+    for c in calls:
+        hv = [k.value for k in c.keywords if k.arg == "relaxation_hamiltonian"]
+        if not hv:
+            raise AnalysisError("_thermal_population called without relaxation_hamiltonian=")
+        # branch label: innermost enclosing tests on the request
+        label = []
+        chain = [c] + ancestors(c)
+        for child, a in zip(chain, chain[1:]):
+            if isinstance(a, ast.If) and any(child is x for x in a.body):
+                t = norm(a.test)
+                if "condition_type ==" in t or "relaxation_theory_limit ==" in t:
+                    label.append(t.split("==")[1].strip().strip("'\""))
+        label = "/".join(reversed(label)) or "?"
+        # where is the matrix read from a managed .data?
+        reads = []
+        v = hv[0]
+        if isinstance(v, ast.Attribute) and v.attr == "data":
+            reads.append(v)
+        elif isinstance(v, ast.Name):
+            same_branch = [n for n in ast.walk(f.node) if isinstance(n, ast.Assign)
+                           and any(isinstance(t_, ast.Name) and t_.id == v.id for t_ in n.targets)
+                           and isinstance(n.value, ast.Attribute) and n.value.attr == "data"
+                           and n.lineno < c.lineno]
+            # the closest preceding binding inside the same request branch
+            arms = [a for child, a in zip(chain, chain[1:]) if isinstance(a, ast.If) and any(child is x for x in a.body)]
+            if arms:
+                inner = set(id(x) for st_ in arms[0].body for x in ast.walk(st_))
+                same_branch = [n for n in same_branch if id(n) in inner]
+            if same_branch:
+                reads.append(same_branch[-1].value)
+        if not reads:
+            raise AnalysisError("_get_DensityMatrix[%s]: cannot find where the Hamiltonian matrix is read" % label)
+        protected = all(in_ctx(r) for r in reads)
+        accepted = None
+        if not protected and label.startswith("thermal") and "excited" not in label:
+            accepted = "the ground-state band is decoupled from the excited bands, its block of H is the same in " \
+                       "the site and the exciton representation"
+        run.obligation(rid, "AggregateBase._get_DensityMatrix", protected or accepted is not None,
+                       key="defining-basis:" + label,
+                       message="the '%s' state takes its energies from %s read outside any basis context: inside a "
+                               "basis-change context of the caller the populations are those of that basis, not of the "
+                               "basis the request defines" % (label, norm(reads[0])),
+                       loc=f.loc(c), sample={"request": label, "read": norm(reads[0]), "protected": protected,
+                                             "accepted_because": accepted})
 
 
 def rule_D(run, prog, sites):
